@@ -55,34 +55,7 @@ func checkC10(c *Ctx) {
 			// a field payload reaches zap through a parameter (the value itself, an element of a slice
 			// parameter/receiver, a type assertion of an interface{} parameter); errors zap received
 			// from marshalers/sinks are call results
-			isPayload := false
-			r := recv
-			for k := 0; k < 6; k++ {
-				switch x := r.(type) {
-				case *ssa.TypeAssert:
-					r = x.X
-					continue
-				case *ssa.UnOp:
-					if ia, ok := x.X.(*ssa.IndexAddr); ok {
-						r = ia.X
-						continue
-					}
-				case *ssa.Index:
-					r = x.X
-					continue
-				case *ssa.Extract:
-					if nx, ok := x.Tuple.(*ssa.Next); ok {
-						if rg, ok := nx.Iter.(*ssa.Range); ok {
-							r = rg.X
-							continue
-						}
-					}
-				}
-				break
-			}
-			if _, isParam := Strip(r).(*ssa.Parameter); isParam {
-				isPayload = true
-			}
+			isPayload := c10IsPayload(recv, 0)
 			if !isPayload {
 				if p == CorePath || p == ZapPath {
 					c.Triv("R10.1", FuncKey(fn), "listed/"+m.Name()+"("+d+")", call.Pos(), "%s() on %s: an error zap itself received from a marshaler/sink or built (not a user field payload) - listed, not required to be under recover", m.Name(), d)
@@ -422,4 +395,65 @@ func firstConds(c [][]string, n int) [][]string {
 		return c[:n]
 	}
 	return c
+}
+
+// c10IsPayload: v reaches zap from its user: it is (an element / a type
+// assertion of) a parameter of an API function - or of an unexported helper
+// some call site of which passes such a value.
+func c10IsPayload(v ssa.Value, depth int) bool {
+	r := v
+	for k := 0; k < 6; k++ {
+		switch x := r.(type) {
+		case *ssa.TypeAssert:
+			r = x.X
+			continue
+		case *ssa.UnOp:
+			if ia, ok := x.X.(*ssa.IndexAddr); ok {
+				r = ia.X
+				continue
+			}
+		case *ssa.Index:
+			r = x.X
+			continue
+		case *ssa.Extract:
+			if nx, ok := x.Tuple.(*ssa.Next); ok {
+				if rg, ok := nx.Iter.(*ssa.Range); ok {
+					r = rg.X
+					continue
+				}
+			}
+		}
+		break
+	}
+	p, isParam := Strip(r).(*ssa.Parameter)
+	if !isParam {
+		// a field of a parameter struct (the Field's Interface slot)
+		rt := Root(r)
+		if a, ok := rt.(*ssa.Alloc); ok {
+			if st := singleStore(a); st != nil {
+				rt = Strip(st)
+			}
+		}
+		p, isParam = rt.(*ssa.Parameter)
+	}
+	if !isParam {
+		return false
+	}
+	f := p.Parent()
+	if depth > 4 || !Eligible(f) || len(sitesOf(f)) == 0 {
+		return true
+	}
+	idx := -1
+	for i, q := range f.Params {
+		if q == p {
+			idx = i
+		}
+	}
+	for _, s := range sitesOf(f) {
+		args := Args(s)
+		if idx < 0 || idx >= len(args) || c10IsPayload(args[idx], depth+1) {
+			return true
+		}
+	}
+	return false
 }
